@@ -92,6 +92,11 @@ static int parseConvertElement(MPT_INTERFACE(convertable) *conv, MPT_TYPE(type) 
 	else if ((len = mpt_convert_string(it->val, type, dest)) < 0) {
 		return len;
 	}
+	/* only blank data remaining, target was not assigned */
+	else if (!len && type) {
+		it->restore = 0;
+		return MPT_ERROR(MissingData);
+	}
 	/* terminate consumed substring */
 	it->restore = it->val + len;
 	if (it->restore >= it->end) {
